@@ -22,8 +22,8 @@ RULE = (
     'profile restriction, operation) tuples reached'
 )
 ASSUMPTIONS = ['re-adding a name that is still registered and defaultProfiles naming an unregistered profile are API misuse and not generated']
-MIN_EVENTS = {'quick': {'oracle.validate-agrees': 800000, 'oracle.step': 2500, 'oracle.add-remove-restores': 250, 'oracle.unknown-removal': 150, 'histories': 500},
-              'thorough': {'oracle.validate-agrees': 15000000, 'oracle.step': 60000, 'oracle.add-remove-restores': 6000, 'oracle.unknown-removal': 4000, 'histories': 12000}}
+MIN_EVENTS = {'quick': {'oracle.validate-agrees': 800000, 'oracle.step': 2500, 'oracle.add-remove-restores': 250, 'oracle.unknown-removal': 150, 'histories': 500, 'oracle.blind-replacement': 500, 'oracle.default-as-string': 120},
+              'thorough': {'oracle.validate-agrees': 15000000, 'oracle.step': 60000, 'oracle.add-remove-restores': 6000, 'oracle.unknown-removal': 4000, 'histories': 12000, 'oracle.blind-replacement': 12000, 'oracle.default-as-string': 2500}}
 
 CUSTOM = {
     'P1': ({'x-one': '{int}|a|b'}, None),
@@ -35,12 +35,16 @@ CUSTOM = {
     'P7': ({'x-fn': 'yes|{ident}x'}, {'ident': 'q'}),
     'P8': ({'font-size': '{absolute-size}|huge', 'x-eight': '{absolute-size}'}, {'absolute-size': 'tiny'}),
     # validation functions instead of expressions; the one for x-one (also defined by P1) and for color raises on most values
+    # round 8: a profile whose *name* contains another profile's name (as 'CSS Fonts Module Level 3 @font-face properties' contains 'CSS Fonts Module Level 3')
+    'P10': ({'x-ten': 'ten|{int}'}, None),
     'P9': ({'x-one': lambda v: int(v) > 3, 'x-nine': lambda v: v in ('yes', 'qx'), 'color': lambda v: {'foo': True, 'red': False}[v]}, None),
 }
 NAMES = ['color', 'z-index', 'border-top-style', 'outline-style', 'font-size', 'font', 'width', 'display', 'x-one', 'x-two', 'x-three', 'x-col', 'x-bs',
          'x-p6', 'x-fn', 'x-eight', 'x-nine', 'nosuchprop', 'margin-top', 'opacity', 'src']  # fmt: skip
 VALUES = ['red', 'foo', 'baz', 'black', '1', '5', 'wavy', 'solid', 'yes', 'qx', '1px', 'block', 'large', 'tiny', 'huge', 'inherit', '0.5', 'a', 'rgba(1, 2, 3, 0.5)', 'url(x)']
 BATTERY = [(n, v) for n in NAMES for v in VALUES if (len(n) + len(v)) % 2 == 0 or n.startswith('x-')]
+# properties only 'CSS Fonts Module Level 3' defines (its name is part of the @font-face profile's name), and one only P10 defines
+BATTERY += [('font-size-adjust', '0.5'), ('font-size-adjust', 'none'), ('font-size-adjust', 'red'), ('font-stretch', 'condensed'), ('font-stretch', '1'), ('x-ten', 'ten'), ('x-ten', '7'), ('x-ten', 'a')]
 
 
 def signature(reg):
@@ -127,7 +131,7 @@ def run_history(ctx, cssutils, rng, use_global=False, ops_in=None, raising_in=No
             if script is not None:
                 op = script[step]
             else:
-                kinds = ['add'] * 4 + ['add-many'] * 2 + ['remove'] * 3 + ['remove-unknown', 'default', 'default-none', 'add-remove', 'default-detour']
+                kinds = ['add'] * 4 + ['add-many'] * 2 + ['remove'] * 3 + ['remove-unknown', 'default', 'default-none', 'add-remove', 'default-detour', 'default-string', 'add-remove', 'remove-unknown']
                 if not use_global:
                     kinds += ['remove-builtin', 'readd-builtin', 'remove-all-readd', 'remove-all-customs']
                 k = rng.choice(kinds)
@@ -144,6 +148,13 @@ def run_history(ctx, cssutils, rng, use_global=False, ops_in=None, raising_in=No
                     op.append(rng.sample(list(reg.profiles), rng.randint(1, min(3, len(reg.profiles)))) if reg.profiles else [])
                     if k == 'default-detour' and not op[1]:
                         continue
+                elif k == 'default-string':
+                    # round 8: the restriction given as one plain name (documented: "a single or a list of profile names"), with a liking for names that contain another one
+                    cands = [p for p in reg.profiles if any(q != p and q in p for q in reg.profiles)]
+                    pool = cands if cands and rng.random() < 0.6 else list(reg.profiles)
+                    if not pool:
+                        continue
+                    op.append(rng.choice(pool))
                 elif k == 'remove-builtin':
                     present = [b for b in builtins if b in reg.profiles]
                     if len(present) < 3:
@@ -212,6 +223,22 @@ def run_history(ctx, cssutils, rng, use_global=False, ops_in=None, raising_in=No
                     continue
                 default = list(op[1])
                 reg.defaultProfiles = list(default)
+            elif k == 'default-string':
+                if op[1] not in reg.profiles:
+                    ops.pop()
+                    continue
+                default = [op[1]]
+                reg.defaultProfiles = op[1]
+                ctx.count('oracle.default-as-string')
+                # the same restriction given per call, as a plain name, says what the registry-wide one says
+                for nm, val in BATTERY[step % 5 :: 5]:
+                    try:
+                        x, y = reg.validateWithProfile(nm, val), reg.validateWithProfile(nm, val, op[1])
+                    except Exception:
+                        continue
+                    if (bool(x[0]), bool(x[1]), list(x[2])) != (bool(y[0]), bool(y[1]), list(y[2])):
+                        ctx.violation('law.defaults-do-not-change-validity', dict(case, failed_at=step), {'pair': [nm, val], 'registry-wide': str(x), 'per call': str(y), 'default': op[1]})
+                        return
             elif k == 'default-none':
                 default = None
                 reg.defaultProfiles = None
@@ -294,7 +321,7 @@ def run_history(ctx, cssutils, rng, use_global=False, ops_in=None, raising_in=No
             if default is not None:
                 reg.defaultProfiles = None
                 unrestricted = verdict_only(signature(reg))
-                reg.defaultProfiles = list(default)
+                reg.defaultProfiles = default[0] if k == 'default-string' else list(default)
                 # (a validation function that raises in raising mode aborts the scan: where either side is an exception the order of the
                 # scan decides, which the restriction legitimately changes)
                 pairs = [(x, y) for x, y in zip(unrestricted, verdict_only(sig)) if not isinstance(x[0], str) and not isinstance(y[0], str) and not isinstance(x[1], str) and not isinstance(y[1], str)]
@@ -321,6 +348,71 @@ def run_history(ctx, cssutils, rng, use_global=False, ops_in=None, raising_in=No
                 cssutils.profile = P.Profiles(log=cssutils.log)
 
 
+ALT = {
+    'P1': ({'x-one': 'c|d'}, None),
+    'P2': ({'color': 'blue', 'x-two': 'zzz|{x-mycolor}'}, {'x-mycolor': 'qux'}),
+    'P6': ({'x-p6': 'other|{x-mycolor}'}, {'x-mycolor': 'bar'}),
+    'P10': ({'x-ten': 'eleven'}, None),
+}
+BLIND_PAIRS = {'P1': [('x-one', 'a'), ('x-one', 'c'), ('x-one', '1')], 'P2': [('x-two', 'foo'), ('x-two', 'qux'), ('x-two', 'zzz')],
+               'P6': [('x-p6', 'baz'), ('x-p6', 'other'), ('x-p6', 'bar')], 'P10': [('x-ten', 'ten'), ('x-ten', 'eleven'), ('x-ten', '3')]}
+
+
+def run_blind_history(ctx, cssutils, rng, script_in=None):
+    """round 8: a registry that is asked *little*. The lock-step histories above read 200 verdicts after every operation, which would
+    refresh anything the registry remembers; here one profile is replaced by another edition under the same name (and in the same place)
+    with nothing asked in between except, sometimes, the very pairs under test - and the answers are those of a registry that only ever
+    had the new edition."""
+    P = cssutils.profiles
+    if script_in is not None:
+        name, others, probes, order = script_in
+    else:
+        name = rng.choice(sorted(ALT))
+        others = rng.sample([c for c in ('P3', 'P4', 'P5', 'P7', 'P8') ], rng.randint(0, 2))
+        probes = [rng.random() < 0.8, rng.random() < 0.3]  # ask before the removal / between removal and re-adding
+        order = rng.choice(['old-first', 'new-first'])
+    case = {'kind': 'blind', 'script': [name, others, probes, order]}
+    ctx.count('oracle.blind-replacement')
+    first, second = (CUSTOM[name], ALT[name]) if order == 'old-first' else (ALT[name], CUSTOM[name])
+    pairs = BLIND_PAIRS[name]
+
+    def ask(reg):
+        out = []
+        for nm, val in pairs:
+            try:
+                r = reg.validateWithProfile(nm, val)
+                out.append((bool(reg.validate(nm, val)), bool(r[0]), bool(r[1]), list(r[2])))
+            except Exception as e:
+                out.append('EXC:' + type(e).__name__)
+        return out
+
+    try:
+        cssutils.log.raiseExceptions = False
+        reg = P.Profiles(log=cssutils.log)
+        for o in others:
+            reg.addProfile(o, dict(CUSTOM[o][0]), dict(CUSTOM[o][1]) if CUSTOM[o][1] else None)
+        reg.addProfile(name, dict(first[0]), dict(first[1]) if first[1] else None)
+        if probes[0]:
+            ask(reg)
+        reg.removeProfile(name)
+        if probes[1]:
+            ask(reg)
+        reg.addProfile(name, dict(second[0]), dict(second[1]) if second[1] else None)
+        got = ask(reg)
+        fresh = P.Profiles(log=cssutils.log)
+        for o in others:
+            fresh.addProfile(o, dict(CUSTOM[o][0]), dict(CUSTOM[o][1]) if CUSTOM[o][1] else None)
+        fresh.addProfile(name, dict(second[0]), dict(second[1]) if second[1] else None)
+        exp = ask(fresh)
+        if got != exp:
+            ctx.violation('lockstep.vs-fresh-registry', case, {'what': 'verdicts after a profile was replaced under its own name', 'pairs': pairs, 'long_lived': str(got), 'fresh': str(exp)})
+        ctx.seen(['B', name, sorted(others), probes, order])
+    except Exception as e:
+        ctx.violation('exception', case, {'tb': core.short_tb(e)}, site=core.raise_site(e))
+    finally:
+        core.canonical_state(cssutils, raising=True)
+
+
 def run_worker(ctx):
     cssutils, _ = core.import_repo()
     core.canonical_state(cssutils, raising=True)
@@ -330,6 +422,7 @@ def run_worker(ctx):
             continue
         ctx.count('evaluations')
         run_history(ctx, cssutils, ctx.rng('h', i), use_global=(i % 5 == 0))
+        run_blind_history(ctx, cssutils, ctx.rng('b', i))
     ctx.sample({'custom_profiles': {k: [v[0], v[1]] for k, v in CUSTOM.items()}, 'battery_size': len(BATTERY),
                 'example_history': [['add', 'P3'], ['add', 'P8'], ['remove', 'P3'], ['default', ['CSS Level 2.1']], ['remove', 'P8']]})
 
@@ -338,5 +431,8 @@ def replay(ctx, case):
     cssutils, _ = core.import_repo()
     import random
 
+    if case.get('kind') == 'blind':
+        run_blind_history(ctx, cssutils, random.Random(0), script_in=case['script'])
+        return
     run_history(ctx, cssutils, random.Random(0), use_global=case.get('global', False), ops_in=[list(o) for o in case['ops']], raising_in=case.get('raising', True))
     core.canonical_state(cssutils)
